@@ -2,6 +2,7 @@ package ir
 
 import (
 	"fmt"
+	"regexp"
 	"go/constant"
 	"go/token"
 	"go/types"
@@ -24,7 +25,9 @@ func Desc(v ssa.Value) string {
 	return descN(v, 0, map[ssa.Value]bool{})
 }
 
-const maxDescDepth = 14
+const maxDescDepth = 18
+
+var fieldChainRe = regexp.MustCompile(`(\.&\w+)+$`)
 
 func descN(v ssa.Value, depth int, seen map[ssa.Value]bool) string {
 	if v == nil {
@@ -51,7 +54,25 @@ func descN(v ssa.Value, depth int, seen map[ssa.Value]bool) string {
 		c := v.Comment
 		switch {
 		case c == "complit" || c == "new" || c == "":
-			return "new(" + TypeStr(deref(v.Type())) + ")"
+			base := "new(" + TypeStr(deref(v.Type())) + ")"
+			// small struct literals (keys such as requestID) are rendered with
+			// their fields so that different literals of one type are distinct
+			if st, ok := deref(v.Type()).Underlying().(*types.Struct); ok && st.NumFields() <= 3 && unexportedNamed(deref(v.Type())) {
+				lf := LiteralFields(v)
+				if len(lf) > 0 {
+					var parts []string
+					for i := 0; i < st.NumFields(); i++ {
+						vals := lf[st.Field(i).Name()]
+						if len(vals) == 1 {
+							parts = append(parts, st.Field(i).Name()+"="+d(vals[0]))
+						} else if len(vals) > 1 {
+							return base
+						}
+					}
+					return base + "{" + strings.Join(parts, ",") + "}"
+				}
+			}
+			return base
 		case strings.HasSuffix(c, "slicelit") || c == "varargs" || c == "makeslice":
 			return "newarr(" + TypeStr(deref(v.Type())) + ")"
 		default:
@@ -79,10 +100,17 @@ func descN(v ssa.Value, depth int, seen map[ssa.Value]bool) string {
 					return d(sv)
 				}
 			}
+			if fa, ok := v.X.(*ssa.FieldAddr); ok {
+				if a, ok := fa.X.(*ssa.Alloc); ok && a.Comment != "complit" && a.Comment != "new" {
+					if sv := SingleStore(a, v); sv != nil {
+						return d(sv) + "." + fieldName(fa.X.Type(), fa.Field)
+					}
+				}
+			}
 			inner := d(v.X)
-			// load through an address: x.&f -> x.f ; &local:n -> local:n
-			if i := strings.LastIndex(inner, ".&"); i >= 0 && !strings.ContainsAny(inner[i+2:], ".([ ") {
-				return inner[:i] + "." + inner[i+2:]
+			// load through an address: x.&f -> x.f (also chains x.&f.&g -> x.f.g) ; &local:n -> local:n
+			if m := fieldChainRe.FindStringIndex(inner); m != nil {
+				return inner[:m[0]] + strings.ReplaceAll(inner[m[0]:], ".&", ".")
 			}
 			if strings.HasSuffix(inner, "]") {
 				if i := strings.LastIndex(inner, ".&["); i >= 0 && balanced(inner[i+2:]) {
@@ -524,4 +552,9 @@ func CapturedValue(fv *ssa.FreeVar) ssa.Value {
 		return CapturedValue(c)
 	}
 	return nil
+}
+
+func unexportedNamed(t types.Type) bool {
+	n, ok := t.(*types.Named)
+	return ok && !n.Obj().Exported()
 }
